@@ -248,27 +248,23 @@ func (mp *memPart) mustInitFromTraces(ts *traces) {
 
 	sort.Sort(ts)
 
-	// Count unique trace IDs
+	// Count unique trace IDs. The empty string is a storable trace ID, so it cannot double as the
+	// "no previous trace" marker: compare with the previous element instead.
 	traceSize := 0
-	var tidPrevCount string
-	for _, tid := range ts.traceIDs {
-		if tid != tidPrevCount {
+	for i, tid := range ts.traceIDs {
+		if i == 0 || tid != ts.traceIDs[i-1] {
 			traceSize++
-			tidPrevCount = tid
 		}
 	}
 
 	bsw := generateBlockWriter()
 	bsw.MustInitForMemPart(mp, traceSize)
 
-	var tidPrev string
+	tidPrev := ts.traceIDs[0]
 	uncompressedSpansSizeBytes := uint64(0)
 	var indexPrev int
 	for i := range ts.spans {
 		tid := ts.traceIDs[i]
-		if tidPrev == "" {
-			tidPrev = tid
-		}
 
 		if uncompressedSpansSizeBytes >= maxUncompressedSpanSize || tid != tidPrev {
 			bsw.MustWriteTrace(tidPrev, ts.spans[indexPrev:i], ts.tags[indexPrev:i], ts.timestamps[indexPrev:i], ts.spanIDs[indexPrev:i])
